@@ -318,7 +318,7 @@ def to_signum(signum):
     except ValueError:
         pass
 
-    m = re.match(r'(\w+)(\+(\d+))?', signum)
+    m = re.match(r'^(\w+)(\+(\d+))?$', signum)
     if m:
         name = m.group(1).upper()
         if not name.startswith('SIG'):
@@ -326,10 +326,11 @@ def to_signum(signum):
 
         offset = int(m.group(3)) if m.group(3) else 0
 
-        try:
-            return getattr(signal, name) + offset
-        except KeyError:
-            pass
+        # only real signals: the signal module also has SIG_IGN, SIG_DFL,
+        # SIG_BLOCK... which are not signal numbers
+        value = getattr(signal, name, None)
+        if isinstance(value, signal.Signals):
+            return value + offset
 
     raise ValueError('signal invalid: {}'.format(signum))
 
